@@ -68,7 +68,7 @@ def cvc5_check(solver, timeout_ms):
 _feas_cache = {}
 
 
-def quick_feasible(pc, timeout_ms=300):
+def quick_feasible(pc, timeout_ms=int(os.environ.get("PYVC_PRUNE_MS", "60"))):
     """Cheap feasibility test used for pruning; unknown counts as feasible."""
     if not pc:
         return True
